@@ -48,12 +48,17 @@ pub fn evaluate_expression(expr: &str, facts: &Facts) -> Result<Value> {
 
     // Is it a string literal?
     if expr.len() >= 2 {
-        let unquoted = &expr[1..expr.len() - 1];
-        if (expr.starts_with('"') && expr.ends_with('"') && !unquoted.contains('"'))
-            || (expr.starts_with('\'') && expr.ends_with('\'') && !unquoted.contains('\''))
-        {
+        // Look at the quotes first: slicing off the first and last byte is only valid once
+        // they are known to be (single-byte) quote characters.
+        let double_quoted = expr.starts_with('"') && expr.ends_with('"');
+        let single_quoted = expr.starts_with('\'') && expr.ends_with('\'');
+        if double_quoted || single_quoted {
             let unquoted = &expr[1..expr.len() - 1];
-            return Ok(Value::String(unquoted.to_string()));
+            if (double_quoted && !unquoted.contains('"'))
+                || (single_quoted && !unquoted.contains('\''))
+            {
+                return Ok(Value::String(unquoted.to_string()));
+            }
         }
     }
 
